@@ -372,6 +372,16 @@ def reject_probes(rec):
             return
         rec.violation(sig, f"{what} was accepted", case={"kind": "probe", "what": what})
 
+    # a bundle instance is an instance of a Bundle DEFINITION: not of another instance, a Module, or anything else
+    for what, mk in (("a bundle instance", lambda: h.Diff()), ("a Module", lambda: h.Module(name="NotABundle")), ("an int", lambda: 5), ("None", lambda: None),
+                     ("a Signal", lambda: h.Signal())):
+        for holder in ("module", "bundle"):
+            def attempt(mk=mk, holder=holder):
+                tgt = h.Module(name="P") if holder == "module" else h.Bundle(name="P")
+                tgt.add(h.BundleInstance(of=mk()), name="d")
+                if holder == "module":
+                    h.to_proto(tgt)
+            must_raise(f"BundleInstance(of={what}) added to a {holder}" + (" and exported" if holder == "module" else ""), attempt, "bundle-instance-of-non-bundle-accepted")
     for name in mod_banned:
         must_raise(f"Module.__setattr__('{name}', Signal)", lambda n=name: setattr(h.Module(name="P"), n, h.Signal()), "reserved-name-accepted:setattr")
         must_raise(f"Module.add(Signal, name='{name}')", lambda n=name: h.Module(name="P").add(h.Signal(), name=n), "reserved-name-accepted:add")
